@@ -1,0 +1,91 @@
+//go:build verif
+
+// Contracts for the deductive verifier in /verif (comment-only file; it
+// contributes no code to any build). Syntax: see /verif/DESIGN.md.
+package sharding
+
+// Spec functions. ulog/umix/uscore stand for "the value the real function
+// returns for these arguments"; that the real functions ARE functions of their
+// arguments alone is the FRAME obligation "deterministic" (a scan of the SSA:
+// no heap reads, no stores outside locals, only deterministic callees).
+//@ ufunc ulog(u64) u64
+//@ ufunc umix(u64) u64
+//@ ufunc uscore(u64, u32) u64
+
+//@ func Log2Fixed
+//@   arith bv
+//@   opt deterministic ulog
+//@   ensures [range] result <= 4194303
+
+//@ func splitmix64
+//@   arith bv
+//@   opt deterministic umix
+
+//@ func score
+//@   arith bv
+//@   opt deterministic uscore
+//@   ensures [positive] weight >= 1 ==> result >= 1024
+
+// sc(s, j, hash): the score of the shard at position j of the (hash-sorted)
+// internal list for an object hash. The xor is the engine's uninterpreted but
+// deterministic bitop_xor in Int mode.
+//@ ufunc bxor(u64, u64) u64
+//@ pure sc(s, j, hash) = uscore(umix(bxor(s.shards[j].hash, hash)), s.shards[j].weight)
+
+//@ func (*rendezvousShardSelector).GetShard
+//@   requires [nonempty] len(s.shards) >= 1
+//@   requires [weights] forall j :: 0 <= j && j < len(s.shards) ==> s.shards[j].weight >= 1
+//@   ensures [argmax] exists k :: 0 <= k && k < len(s.shards) && result == s.shards[k].index
+//@         && (forall j :: 0 <= j && j < len(s.shards) ==> sc(s, j, hash) <= sc(s, k, hash))
+//@         && (forall j :: 0 <= j && j < k ==> sc(s, j, hash) < sc(s, k, hash))
+//@   loop 0 invariant -1 <= rangeindex && rangeindex < len(s.shards)
+//@   loop 0 invariant forall j :: 0 <= j && j <= rangeindex ==> sc(s, j, hash) <= best
+//@   loop 0 invariant rangeindex == -1 ==> best == 0
+//@   loop 0 invariant rangeindex >= 0 ==> (exists k :: 0 <= k && k <= rangeindex && best == sc(s, k, hash)
+//@         && bestIndex == s.shards[k].index && (forall j :: 0 <= j && j < k ==> sc(s, j, hash) < best))
+
+// ------------------------------------------------------------- lemmas
+//
+// Shards are identified by the hash of their key (distinct: the constructor
+// rejects collisions). A shard map is a set inS of such identifiers, scv[x] is
+// the score of shard x for the object at hand (a function of x's key hash and
+// weight and of the object's hash only, by the "deterministic" obligations).
+// winner(inS, scv, w): w is the element of the set with the highest score,
+// ties broken towards the smallest key hash. The definition does not mention
+// any order in which shards are listed.
+//@ pure winner(inS, scv, w) = inS[w] && (forall x :: inS[x] ==> scv[x] < scv[w] || (scv[x] == scv[w] && w <= x))
+
+// What GetShard's postcondition says about positions implies the set
+// characterisation, provided the internal list is strictly ascending by key
+// hash (established by the sort in the constructor).
+//@ lemma L12_bridge(scA intarr, hsA intarr, n int, k int)
+//@   requires 0 <= k && k < n
+//@   requires forall i, j :: 0 <= i && i < j && j < n ==> hsA[i] < hsA[j]
+//@   requires forall j :: 0 <= j && j < n ==> scA[j] <= scA[k]
+//@   requires forall j :: 0 <= j && j < k ==> scA[j] < scA[k]
+//@   ensures [char] forall j :: 0 <= j && j < n ==> scA[j] < scA[k] || (scA[j] == scA[k] && hsA[k] <= hsA[j])
+
+// The winner of a set is unique, hence independent of listing order.
+//@ lemma L12_unique(inS boolarr, scv intarr, a int, b int)
+//@   requires winner(inS, scv, a) && winner(inS, scv, b)
+//@   ensures [same] a == b
+
+// Removing shard r re-routes only objects that were assigned to r.
+//@ lemma L12_removal(inS boolarr, inT boolarr, scv intarr, w int, r int)
+//@   requires winner(inS, scv, w) && w != r
+//@   requires forall x :: inT[x] <==> (inS[x] && x != r)
+//@   ensures [stays] winner(inT, scv, w)
+
+// Adding shard n re-routes objects only to n.
+//@ lemma L12_addition(inS boolarr, inT boolarr, scv intarr, w int, w2 int, n int)
+//@   requires forall x :: inT[x] <==> (inS[x] || x == n)
+//@   requires winner(inS, scv, w) && winner(inT, scv, w2)
+//@   ensures [only-new] w2 == w || w2 == n
+
+// Must-fail canary: without strict ordering of the internal list the bridge
+// does not hold (two equal-score shards, tie not resolved by key hash).
+//@ lemma L12_canary_unsorted(scA intarr, hsA intarr, n int, k int)
+//@   requires 0 <= k && k < n
+//@   requires forall j :: 0 <= j && j < n ==> scA[j] <= scA[k]
+//@   requires forall j :: 0 <= j && j < k ==> scA[j] < scA[k]
+//@   ensures [char] forall j :: 0 <= j && j < n ==> scA[j] < scA[k] || (scA[j] == scA[k] && hsA[k] <= hsA[j])
